@@ -25,7 +25,7 @@ from ..tlc import MachineryError, run_tlc
 CFG = {
     "quick": [("ReaderQuickTree.cfg", None), ("ReaderQuickContent.cfg", None)],
     "thorough": [("ReaderQuickTree.cfg", None), ("ReaderQuickContent.cfg", None), ("ReaderTree3.cfg", None),
-                 ("ReaderClasses.cfg", None), ("ReaderContent.cfg", 1500)],
+                 ("ReaderClasses.cfg", 900), ("ReaderContent.cfg", 700)],
 }
 FINDING_ROOT = "root-rebuild-reparents-nested-group"
 KINDS = ["pattr", "flat", "rootlink", "entry", "eattr", "typelink", "childcont", "childlink", "dataset",
@@ -33,7 +33,8 @@ KINDS = ["pattr", "flat", "rootlink", "entry", "eattr", "typelink", "childcont",
 
 
 def _enumerate(cfg):
-    res = run_tlc("reader", "ReaderFaults", cfg, workers=1, heap="2g", timeout=3000)
+    # (one PrintT = one println: lines stay whole with several workers, and their order is irrelevant here)
+    res = run_tlc("reader", "ReaderFaults", cfg, workers=2, heap="2g", timeout=3000)
     if not res.ok:
         raise MachineryError(f"TLC reports {res.violated} on ReaderFaults/{cfg}: the specification violates its own "
                              f"invariants\n{res.raw_tail[-1500:]}")
@@ -118,6 +119,14 @@ def _judge(case, status, view, base, ent_uid):
             f"removing {case['class']} item {item} (describes {case['describes']}) {word} bystander(s) {detail}"), obs
 
 
+def _agrees(obs, pred):
+    """Observed outcome against the outcome of the reader model (informative, not the verdict)."""
+    if obs["err"] or pred["err"]:
+        return obs["err"] == pred["err"]
+    return (obs["absent"] == pred["absent"] and obs["extra"] == pred["extra"]
+            and set(pred["altered"]) <= set(obs["altered"]) <= set(pred["altered"]) | set(pred["maybe"]))
+
+
 def _replay_file(unit):
     fspec, seed = unit["file"], unit["seed"]
     scratch = pool.scratch()
@@ -154,7 +163,7 @@ def _replay_file(unit):
                         ("identical" if not obs["absent"] and not obs["altered"] and not obs["extra"] else "differing")] += 1
             if item["k"] == "rootlink" and case["reparented"]:
                 out["reparent_cases"] += 1
-            if obs == case["pred"]:
+            if _agrees(obs, case["pred"]):
                 out["agree"] += 1
             elif len(out["disagree"]) < int(os.environ.get("C19_KEEP_DISAGREE", "3")):
                 out["disagree"].append({"item": item, "predicted": case["pred"], "observed": obs})
